@@ -3,6 +3,8 @@ whether the CLI binary is needed, the non-triviality rule that the harness appli
 
 PROPS = {
     "C03": {
+        "extra_imports": ["Gofasta.Props.Cols"],
+        "extra_theorems": ["Gofasta.Props.Cols.snps_append", "Gofasta.Props.Cols.snpsRowEnc_cons"],
         "cli": True,
         "streams": {"C03": (300, 4000)},
         "thorough_seeds": 3,
@@ -34,8 +36,8 @@ PROPS = {
                 "panic recovery and a time-out; non-trivial = corrupted, multi-record or CRLF; distinct = distinct byte stream",
     },
     "C06": {
-        "extra_imports": ["Gofasta.Props.Cli", "Gofasta.Lemmas.ClosestOrder"],
-        "extra_theorems": ["Gofasta.Props.Cli.closest_defaults", "Gofasta.Lemmas.ClosestOrder.topK_spec_on", "Gofasta.Lemmas.ClosestOrder.hitLt_swoOn_nat", "Gofasta.Lemmas.ClosestOrder.hitLt_swoOn_rat",
+        "extra_imports": ["Gofasta.Props.Cols", "Gofasta.Props.Cli", "Gofasta.Lemmas.ClosestOrder"],
+        "extra_theorems": ["Gofasta.Props.Cols.closest_append", "Gofasta.Props.Cols.snp_col", "Gofasta.Props.Cols.raw_col", "Gofasta.Props.Cols.tn93_col", "Gofasta.Props.Cli.closest_defaults", "Gofasta.Lemmas.ClosestOrder.topK_spec_on", "Gofasta.Lemmas.ClosestOrder.hitLt_swoOn_nat", "Gofasta.Lemmas.ClosestOrder.hitLt_swoOn_rat",
                            "Gofasta.Lemmas.ClosestOrder.closestN_exact", "Gofasta.Lemmas.ClosestOrder.closest_exact", "Gofasta.Lemmas.ClosestOrder.closestN_exact_characterised",
                            "Gofasta.Lemmas.ClosestOrder.closestN_exact_eq_spec", "Gofasta.Lemmas.ClosestOrder.hitLt_not_swo"],
         "cli": True,
@@ -49,6 +51,8 @@ PROPS = {
                 "non-trivial = the target set contains a constructed tie or an undefined distance",
     },
     "C07": {
+        "extra_imports": ["Gofasta.Props.Cols"],
+        "extra_theorems": ["Gofasta.Props.Cols.snp_col", "Gofasta.Props.Cols.raw_col", "Gofasta.Props.Cols.tn93_col", "Gofasta.Props.Cols.snpCount_cons", "Gofasta.Props.Cols.rawCounts_cons", "Gofasta.Props.Cols.tnCounts_cons"],
         "cli": True,
         "streams": {"C07": (400, 8000)},
         "thorough_seeds": 3,
@@ -58,6 +62,8 @@ PROPS = {
                 "tn93 within 1e-9 of the same expression evaluated on the definitional counts); non-trivial as C06",
     },
     "C10": {
+        "extra_imports": ["Gofasta.Props.Cols"],
+        "extra_theorems": ["Gofasta.Props.Cols.updown_append"],
         "cli": True,
         "streams": {"C10": (600, 10000)},
         "thorough_seeds": 3,
@@ -67,8 +73,8 @@ PROPS = {
                 "non-trivial = some row has a non-A/C/G/T column",
     },
     "C04": {
-        "extra_imports": ["Gofasta.Props.Cli", "Gofasta.Lemmas.VariantsOrder"],
-        "extra_theorems": ["Gofasta.Props.Cli.variant_defaults", "Gofasta.Lemmas.VariantsOrder.variantLt_swo", "Gofasta.Lemmas.VariantsOrder.tied_variantLt", "Gofasta.Lemmas.VariantsOrder.indels_sort_eq", "Gofasta.Lemmas.VariantsOrder.specAll_no_del0", "Gofasta.Lemmas.VariantsOrder.adj_sort_eq_sort_all_iff", "Gofasta.Lemmas.VariantsOrder.model_eq", "Gofasta.Lemmas.VariantsOrder.old_variants_list_eq_iff", "Gofasta.Lemmas.VariantsOrder.dedupRun_sorted", "Gofasta.Lemmas.VariantsOrder.run_sort_eq_sort_all", "Gofasta.Lemmas.VariantsOrder.variants_nodup", "Gofasta.Lemmas.VariantsOrder.variants_sorted", "Gofasta.Lemmas.VariantsOrder.old_eq_new_iff", "Gofasta.Lemmas.VariantsOrder.variants_list_eq_of_nodup", "Gofasta.Lemmas.VariantsOrder.variants_list_eq", "Gofasta.Lemmas.VariantsOrder.variants_list_eq_of_le_one", "Gofasta.Lemmas.VariantsOrder.dedupAll_variants_eq", "Gofasta.Lemmas.VariantsOrder.variants_list_eq_iff_nodup", "Gofasta.Lemmas.VariantsOrder.cx_fixed", "Gofasta.Lemmas.VariantsOrder.cx2_fixed", "Gofasta.Lemmas.VariantsOrder.old_dedup_differs", "Gofasta.Lemmas.VariantsOrder.old_cx_differs", "Gofasta.Lemmas.VariantsOrder.cx_wellformed"],
+        "extra_imports": ["Gofasta.Props.Cols", "Gofasta.Props.Cli", "Gofasta.Lemmas.VariantsOrder"],
+        "extra_theorems": ["Gofasta.Props.Cols.nucs_append", "Gofasta.Props.Cols.aas_append", "Gofasta.Props.Cli.variant_defaults", "Gofasta.Lemmas.VariantsOrder.variantLt_swo", "Gofasta.Lemmas.VariantsOrder.tied_variantLt", "Gofasta.Lemmas.VariantsOrder.indels_sort_eq", "Gofasta.Lemmas.VariantsOrder.specAll_no_del0", "Gofasta.Lemmas.VariantsOrder.adj_sort_eq_sort_all_iff", "Gofasta.Lemmas.VariantsOrder.model_eq", "Gofasta.Lemmas.VariantsOrder.old_variants_list_eq_iff", "Gofasta.Lemmas.VariantsOrder.dedupRun_sorted", "Gofasta.Lemmas.VariantsOrder.run_sort_eq_sort_all", "Gofasta.Lemmas.VariantsOrder.variants_nodup", "Gofasta.Lemmas.VariantsOrder.variants_sorted", "Gofasta.Lemmas.VariantsOrder.old_eq_new_iff", "Gofasta.Lemmas.VariantsOrder.variants_list_eq_of_nodup", "Gofasta.Lemmas.VariantsOrder.variants_list_eq", "Gofasta.Lemmas.VariantsOrder.variants_list_eq_of_le_one", "Gofasta.Lemmas.VariantsOrder.dedupAll_variants_eq", "Gofasta.Lemmas.VariantsOrder.variants_list_eq_iff_nodup", "Gofasta.Lemmas.VariantsOrder.cx_fixed", "Gofasta.Lemmas.VariantsOrder.cx2_fixed", "Gofasta.Lemmas.VariantsOrder.old_dedup_differs", "Gofasta.Lemmas.VariantsOrder.old_cx_differs", "Gofasta.Lemmas.VariantsOrder.cx_wellformed"],
         "cli": True,
         "streams": {"C04": (400, 6000)},
         "thorough_seeds": 3,
